@@ -192,12 +192,7 @@ func (nb *nativeBuilder) binary(prog *sym.Program, pkg string) (string, error) {
 }
 
 func modelsOf(p *sym.Program) []string {
-	var ms []string
-	for v := range p.Ov.Replace {
-		if strings.Contains(v, "zz_model_") {
-			ms = append(ms, filepath.Dir(v))
-		}
-	}
+	ms := append([]string{}, p.Ov.Models...)
 	sort.Strings(ms)
 	return ms
 }
